@@ -84,6 +84,7 @@ class FakeTransport(asyncio.DatagramTransport):
         self.sock = sock
         self.protocol = protocol
         self.closed = False
+        self.aborted = False
 
     def get_extra_info(self, name, default=None):
         return self.sock if name == "socket" else default
@@ -101,6 +102,11 @@ class FakeTransport(asyncio.DatagramTransport):
             loop = self.host.sim.loop
             if loop is not None and not loop.is_closed():
                 loop.call_soon(self.protocol.connection_lost, None)
+
+    def abort(self):
+        # asyncio: close at once, discarding whatever is still buffered
+        self.aborted = True
+        self.close()
 
     def is_closing(self):
         return self.closed
